@@ -49,6 +49,13 @@ def _world():
     return servers, endpoint, nodes
 
 
+def _norm(addr):
+    """socket addresses carry the port as the client passed it (the discovery yields strings): compare with int ports"""
+    if isinstance(addr, tuple) and len(addr) == 2 and isinstance(addr[1], str) and addr[1].isdigit():
+        return (addr[0], int(addr[1]))
+    return addr
+
+
 def _names(mask, use_vpc):
     return sorted("%s:%s" % ((n[1] if use_vpc else n[0]), n[2]) for i, n in enumerate(NODES) if mask & (1 << i))
 
@@ -79,15 +86,15 @@ def _check_rotation(c, net, nodes, mask, use_vpc, step):
         return "after %s %d of %d commands reached advertised nodes" % (step, total, len(CORPUS))
     # every connection goes to the advertised address form (IP with use_vpc, host name without) and port
     for s in net.sockets:
-        if s.open and s.connected and s.addr != ENDPOINT:
-            ok_addr = any(s.addr == ((n[1] if use_vpc else n[0]), n[2]) or s.addr == ((n[1] if use_vpc else n[0]), str(n[2]))
+        if s.open and s.connected and _norm(s.addr) != ENDPOINT:
+            ok_addr = any(_norm(s.addr) == ((n[1] if use_vpc else n[0]), n[2])
                           for i, n in enumerate(NODES) if mask & (1 << i))
             if not ok_addr:
                 return "after %s a connection to %r is open (not an advertised node address)" % (step, s.addr)
     return None
 
 
-def _scenario(masks, use_vpc, cut):
+def _scenario(masks, use_vpc, cut, dead=None):
     vclock.fresh()
     B.RECV_SIZE = RECV
     servers, endpoint, nodes = _world()
@@ -96,15 +103,26 @@ def _scenario(masks, use_vpc, cut):
     net.begin_call(1)
     try:
         c = AWSElastiCacheHashClient("%s:%d" % ENDPOINT, socket_module=net, use_vpc=use_vpc, default_noreply=False,
-                                     use_pooling=POOL, timeout=5, connect_timeout=5)
+                                     use_pooling=POOL, timeout=5, connect_timeout=5,
+                                     retry_attempts=0 if dead is not None else 2)
     except Exception as e:
         return viol("construction raised", type(e).__name__, e, "for configuration", _config_text(masks[0]), "cut", cut)
     msg = _check_rotation(c, net, nodes, masks[0], use_vpc, "construction")
     if msg:
         return viol(msg, "(use_vpc=%s, cut %s)" % (use_vpc, cut))
+    if dead is not None and masks[0] & (1 << dead):
+        # node `dead` refuses connections until HashClient evicts it (retry_attempts=0: on the first failure), then recovers
+        host, ip, port = NODES[dead]
+        net.down = {(host, port), (ip, port)}
+        for key in CORPUS:
+            try:
+                c.get(key)
+            except Exception:
+                pass
+        net.down = set()
     for step, m in enumerate(masks[1:], 2):
         endpoint.cluster_config = (step, _config_text(m))
-        old_socks = [s for s in net.sockets if s.open and s.addr != ENDPOINT]
+        old_socks = [s for s in net.sockets if s.open and _norm(s.addr) != ENDPOINT]
         try:
             c.reconfigure_nodes()
         except Exception as e:
@@ -135,12 +153,15 @@ def h_config(mask: int, use_vpc: bool, cut: int) -> int:
         return _scenario([mask], use_vpc, cut)
 
 
-def h_reconf(m1: int, m2: int, m3: int, use_vpc: bool) -> int:
+def h_reconf(m1: int, m2: int, m3: int, use_vpc: bool, dead: int) -> int:
     """
-    sequences of scale-up / scale-down reconfigurations
+    sequences of scale-up / scale-down reconfigurations; optionally one node fails and is evicted before the first
+    reconfiguration (dead = its index, -1 = none)
     pre: 1 <= m1 <= 15 and 1 <= m2 <= 15 and 1 <= m3 <= 15
+    pre: -1 <= dead <= 3
     post: _ != 0
     """
+    dead = concretize(dead, -1, 3)
     masks = [concretize(m1, 1, 15), concretize(m2, 1, 15)]
     if NREC >= 2:
         masks.append(concretize(m3, 1, 15))
@@ -150,16 +171,18 @@ def h_reconf(m1: int, m2: int, m3: int, use_vpc: bool) -> int:
     if "C19-stale-rotation" in KNOWN and any(masks[i] & ~masks[i + 1] for i in range(len(masks) - 1)):
         return skip("known-finding-region")
     with notrace():
-        return _scenario(masks, use_vpc, 0)
+        return _scenario(masks, use_vpc, 0, None if dead < 0 else dead)
 
 
-def h_error(kind: int) -> int:
+def h_error(kind: int, cut: int) -> int:
     """
-    the endpoint answers the config command with an error line
+    the endpoint answers the config command with an error line, delivered in two pieces cut at any position
     pre: 0 <= kind <= 2
+    pre: 0 <= cut <= 40
     post: _ != 0
     """
     kind = concretize(kind, 0, 2)
+    cut = concretize(cut, 0, 40)
     if "C19-error-reply" in KNOWN:
         return skip("known-finding-region")
     with notrace():
@@ -167,7 +190,7 @@ def h_error(kind: int) -> int:
         B.RECV_SIZE = 4096
         servers, endpoint, nodes = _world()
         endpoint.cluster_config = None            # RefServer then answers "ERROR\r\n" like a plain memcached
-        net = NetSim(servers, None)
+        net = NetSim(servers, None, cuts=(cut,) if cut else ())
         if kind == 1:
             net.reply_hook = lambda r: b"SERVER_ERROR out of memory\r\n"
         elif kind == 2:
@@ -210,10 +233,11 @@ def shards(tier):
 BOUNDS = {
     "quick": "4-node universe (distinct host names, IPs, ports): every non-empty advertised subset (symbolic mask) x use_vpc "
              "x every cut position of the config reply (0..239) and receive sizes 4/7; every pair of successive "
-             "configurations (15 x 15, scale-up, scale-down, replacement) with and without pooling; after construction and "
+             "configurations (15 x 15, scale-up, scale-down, replacement) with and without pooling, optionally after one "
+             "node (symbolic) failed and was evicted; after construction and "
              "each reconfigure_nodes(): rotation == advertised names, 10-key corpus routed (real set) only to advertised "
              "nodes on the advertised address form and port, replaced clients' connections closed; ERROR / SERVER_ERROR / "
-             "CLIENT_ERROR answers to the config command",
+             "CLIENT_ERROR answers to the config command cut at every position",
     "thorough": "adds every triple of successive configurations (15^3)",
 }
 OUTSIDE = "more than 4 nodes (the property text says 1..6); more than 3 successive configurations; node lines with IPv6 literals"
